@@ -81,6 +81,16 @@ func (f *failingIndexWriter) Write(m proto.Message) (uint64, error) {
 	return f.WriterI.Write(m)
 }
 
+// a panic of the library while it loads a table it wrote itself is an outcome of the code under test (judged as a failed open)
+func openReaderSafe(ropts ...sstables.ReadOption) (rd sstables.SSTableReaderI, err error) {
+	defer func() {
+		if r := recover(); r != nil {
+			rd, err = nil, fmt.Errorf("panic: %v", r)
+		}
+	}()
+	return sstables.NewSSTableReader(ropts...)
+}
+
 func runSST(args []string) error {
 	if len(args) != 2 {
 		return fmt.Errorf("usage: sst <in.json> <out.ndjson>")
@@ -249,7 +259,7 @@ func runSST(args []string) error {
 			case "none":
 				ropts = append(ropts, sstables.SkipHashCheckOnLoad())
 			}
-			rd, err := sstables.NewSSTableReader(ropts...)
+			rd, err := openReaderSafe(ropts...)
 			if err != nil {
 				tr.emit(M{"t": "reader", "i": ri, "cfg": rc, "err": err.Error(), "closeErr": closeErr, "meta": M{"n": -1, "nulls": -1, "min": -1, "max": -1, "sizesOk": false}})
 				continue
